@@ -18,4 +18,5 @@ import Rtcp.Props.EndToEnd
 import Rtcp.Props.Fast
 import Rtcp.Props.FastWrite
 import Rtcp.Props.CompoundE2E
+import Rtcp.Props.NestedE2E
 import Rtcp.Props.Pins
